@@ -1,10 +1,12 @@
 (* C15 — identifier encodings round-trip; a stored inventory is always
    readable.  Only statements; every proof is `exact <lemma>` or a one-line
    combination.  Models: Model/IdCodec.v (inventory keys, ConfigMap wrapper),
-   Model/DependsOnCodec.v (depends-on references), over Base/Strings.v. *)
+   Model/DependsOnCodec.v (depends-on references), Model/InvClientStore.v (the
+   inventory client that calls Store/Load), over Base/Strings.v. *)
 From Coq Require Import List Bool Arith String Ascii.
 From CliUtils Require Import Base.Strings Model.IdCodec Model.DependsOnCodec
      Proofs.StringsProofs Proofs.IdCodecProofs Proofs.DependsOnProofs Proofs.C15Domain.
+From CliUtils Require Import Model.InvClientStore Proofs.InvClientStoreProofs.
 From CliUtils Require Import Generated.SourceTables Proofs.SourceTablesAgree.
 Import ListNotations.
 Local Open Scope string_scope.
@@ -178,6 +180,49 @@ Theorem C15_depset_error_not_partial : forall s piece, In piece (split "," s) ->
   parse_dep_set s = Err.
 Proof. intros s piece. exact (parse_all_err (split "," s) piece). Qed.
 
+(* ======================= the inventory client ================================= *)
+
+(* Merge / Replace of the inventory client (Model/InvClientStore.v), for every
+   status policy, dry-run strategy, stored inventory and apply set: if some
+   identifier of the apply set cannot be encoded, no mutating request is sent,
+   the inventory object in the cluster is what it was, and the operation is an
+   error (Replace in a dry-run is skipped as a whole, whatever its argument) *)
+Theorem C15_client_op_rejects_before_writing : forall k p d s objs i,
+  In i objs -> storable i = false ->
+  oc_reqs (client_op k p d s objs) = [] /\ oc_store (client_op k p d s objs) = s
+  /\ (op_skipped k d = false -> oc_err (client_op k p d s objs) = true).
+Proof. exact client_op_rejects. Qed.
+
+(* whatever an accepted operation leaves in the cluster, the next run loads,
+   and it is exactly the intended set (Merge: what the cluster had and the
+   apply set; Replace: the apply set), without repeats when it was written *)
+Theorem C15_client_op_written_loads : forall k p d s objs cl,
+  is_dry d = false -> client_get s = Ok cl ->
+  oc_err (client_op k p d s objs) = false ->
+  exists l, client_get (oc_store (client_op k p d s objs)) = Ok l
+    /\ (forall i, In i l <-> In i (op_expected k cl objs))
+    /\ (oc_reqs (client_op k p d s objs) <> [] -> NoDup l).
+Proof. exact client_op_written_loads_l. Qed.
+
+(* an error of any origin, and any dry-run, has written nothing *)
+Theorem C15_client_op_error_writes_nothing : forall k p d s objs,
+  oc_err (client_op k p d s objs) = true ->
+  oc_reqs (client_op k p d s objs) = [] /\ oc_store (client_op k p d s objs) = s.
+Proof. exact client_op_error_writes_nothing. Qed.
+
+Theorem C15_client_op_dry_run_writes_nothing : forall k p d s objs, is_dry d = true ->
+  oc_reqs (client_op k p d s objs) = [] /\ oc_store (client_op k p d s objs) = s.
+Proof. exact client_op_dry_writes_nothing. Qed.
+
+(* the client refuses nothing encodable: with a readable stored inventory
+   (and, for a real Replace, an inventory object to replace) a set of storable
+   identifiers is accepted *)
+Theorem C15_client_op_accepts_encodable : forall k p d s objs cl,
+  forallb storable objs = true -> client_get s = Ok cl ->
+  (k = OReplace -> is_dry d = false -> s <> None) ->
+  oc_err (client_op k p d s objs) = false.
+Proof. exact client_op_accepts_encodable_l. Qed.
+
 (* the RBAC kind set and the separators of the models are the ones extracted
    from pkg/object/objmetadata.go and pkg/object/dependson/strings.go on this run *)
 Theorem C15_constants_from_source :
@@ -218,6 +263,11 @@ Print Assumptions C15_ref_ok_domain.
 Print Assumptions C15_depset_no_misread.
 Print Assumptions C15_depset_parse_sound.
 Print Assumptions C15_depset_error_not_partial.
+Print Assumptions C15_client_op_rejects_before_writing.
+Print Assumptions C15_client_op_written_loads.
+Print Assumptions C15_client_op_error_writes_nothing.
+Print Assumptions C15_client_op_dry_run_writes_nothing.
+Print Assumptions C15_client_op_accepts_encodable.
 
 (* ---- non-vacuity: concrete instances satisfy the hypotheses ------------------ *)
 Definition ex_role : oid := mkOid "" "system:controller:x" rbac_group "ClusterRole".
@@ -250,7 +300,7 @@ Example C15_ex_dep_rejected :
   /\ format_dep (mkOid "x" "z" "g" "namespaces") <> Err /\ format_dep (mkOid "" "x/y/z" "g" "namespaces") = Err
   /\ parse_dep "g//n" = Err /\ parse_dep "g/k/" = Err /\ parse_dep "//" = Err
   /\ parse_dep "g/namespaces//k/n" = Err /\ parse_dep "g/k/n" = Ok (mkOid "" "n" "g" "k").
-Proof. repeat split; try reflexivity. discriminate. Qed.
+Proof. repeat split; try reflexivity. intros H. vm_compute in H. discriminate H. Qed.
 
 Example C15_ex_dep : ref_ok ex_role = true /\ ref_ok ex_deploy = true
   /\ format_dep_set [ex_role; ex_deploy]
@@ -259,4 +309,24 @@ Example C15_ex_dep : ref_ok ex_role = true /\ ref_ok ex_deploy = true
      = Ok [ex_role; ex_deploy]
   /\ forallb item_ok [(" ", ex_role, " "); (" ", ex_deploy, "")] = true.
 Proof. repeat split; reflexivity. Qed.
+(* the inventory client on the seeded witness: a first run whose apply set
+   holds ClusterRole system:node_reader is refused with nothing sent, in every
+   strategy; without it the set is created and the next run loads it *)
+Definition ex_pod : oid := mkOid "test-ns" "pod-a" "" "Pod".
+Definition ex_node_reader : oid := mkOid "" "system:node_reader" rbac_group "ClusterRole".
+Example C15_ex_client :
+  storable ex_node_reader = false
+  /\ client_merge PolNone DryNone None [ex_pod; ex_node_reader] = mkOutcome true [] None []
+  /\ client_merge PolAll DryServer None [ex_pod; ex_node_reader] = mkOutcome true [] None []
+  /\ client_merge PolNone DryNone None [ex_pod; ex_role] = mkOutcome false [RCreate] (Some [ex_pod; ex_role]) []
+  /\ client_get (Some [ex_pod; ex_role]) = Ok [ex_pod; ex_role]
+  /\ client_merge PolNone DryNone (Some [ex_pod; ex_role]) [ex_deploy; ex_node_reader]
+     = mkOutcome true [] (Some [ex_pod; ex_role]) [ex_pod; ex_role]
+  /\ client_replace PolNone DryNone (Some [ex_pod; ex_role]) [ex_deploy; ex_node_reader]
+     = mkOutcome true [] (Some [ex_pod; ex_role]) []
+  /\ client_replace PolNone DryNone (Some [ex_pod; ex_role]) [ex_deploy]
+     = mkOutcome false [RUpdate] (Some [ex_deploy]) []
+  /\ client_merge PolNone DryNone (Some [ex_pod]) [ex_deploy]
+     = mkOutcome false [RUpdate] (Some [ex_pod; ex_deploy]) [ex_pod].
+Proof. vm_compute. repeat split; reflexivity. Qed.
 Print Assumptions C15_constants_from_source.
